@@ -204,3 +204,87 @@ func H16_teardown() {
 	vrtObserve("teardown", cond, how)
 	vrtReach("C16.torn_down")
 }
+
+// H16_churn_then_close: connections come and go before the server is closed: a history of four to six
+// steps, each either "a new client connects" or "the k-th oldest live connection ends" (DISCONNECT or
+// drop), then Server.Close. Afterwards every connection that was still live is closed, none of the
+// library's goroutines remains and Server.Close has returned (round-8 change C16-15: a stopped connection
+// took itself off the server's list by swapping the last entry into its slot without telling that entry,
+// so that after connect A, connect B, end A, connect C, end B the list no longer held C).
+func H16_churn_then_close() {
+	b := vrtBroker("mockSuccess")
+	base := vrtLiveGoroutines()
+	var live []*vrtConn
+	var all []*vrtConn
+	steps := 4 + vrtChoice("steps", 3)
+	for i := 0; i < steps; i++ {
+		if len(live) == 0 || (len(live) < 3 && vrtBool("connect")) {
+			c, ack := b.connect(vrtConnectPkt([]byte{'c', byte('0' + i)}, i%2 == 0))
+			vrtAssert("C16.harness_connack", len(ack) == 4 && ack[3] == 0)
+			vrtExchange(c, &specPkt{Typ: specSUBSCRIBE, ID: 1, Topics: [][]byte{[]byte("t")}, QoS: []byte{0}})
+			live = append(live, c)
+			all = append(all, c)
+		} else {
+			k := vrtChoice("which_ends", len(live))
+			vrtEnd(live[k], vrtChoice("end", 2))
+			vrtAssert("C16.connections_closed", live[k].isClosed())
+			live = append(live[:k:k], live[k+1:]...)
+		}
+	}
+	if len(live) > 0 {
+		vrtReach("C16.close_with_live_connections")
+	}
+	returned := false
+	vrtGo(func() {
+		b.svr.Close()
+		returned = true
+	})
+	vrtJoin()
+	vrtQuiesce()
+	vrtAssert("C16.server_close_returns", returned)
+	for _, c := range all {
+		vrtAssert("C16.connections_closed", c.isClosed())
+	}
+	vrtAssert("C16.no_goroutine_of_an_ended_connection_remains", vrtLiveGoroutines() == base)
+	vrtReach("C16.churn_then_close")
+}
+
+// H16_truncated_packet_at_end: the connection ends - dropped by the peer, keep-alive expiry, Server.Close -
+// while its inbound ring holds the beginning of a packet that will never be completed (a whole fixed
+// header and part of the body, or only part of the header). Its goroutines must still come to an end: the
+// will is published (drop, expiry), the clean session is discarded, nothing keeps running (round-8
+// change C16-16: a closed ring answered "not enough data yet" instead of end-of-stream to a processor
+// that was waiting for the rest of the packet, and the processor asked again, for ever).
+func H16_truncated_packet_at_end() {
+	b := vrtBroker("mockSuccess")
+	base := vrtLiveGoroutines()
+	wit := vrtNewInproc()
+	b.svr.Subscribe("w", 0, &wit.fn)
+	c, _ := b.connect(vrtConnectWithWill([]byte("c"), true, vrtWill{flag: true, topic: []byte("w"), payload: []byte("x")}))
+	payload := make([]byte, 95)
+	pk := specEncode(&specPkt{Typ: specPUBLISH, Topic: []byte("a"), Payload: payload})
+	cut := []int{1, 2, 10, len(pk) - 1}[vrtChoice("bytes_received", 4)]
+	c.peerSend(pk[:cut])
+	vrtQuiesce()
+	vrtAssert("C16.harness_still_open", !c.isClosed())
+	how := vrtChoice("ending", 3)
+	switch how {
+	case 0:
+		c.peerClose()
+	case 1:
+		dl, _, _, _ := c.armState()
+		vrtClockSet(dl + 1)
+		c.peerExpireDeadline()
+	case 2:
+		vrtGo(func() { b.svr.Close() })
+		vrtJoin()
+	}
+	vrtQuiesce()
+	vrtAssert("C16.connections_closed", c.isClosed())
+	vrtAssert("C16.no_goroutine_of_an_ended_connection_remains", vrtLiveGoroutines() == base)
+	if how != 2 {
+		vrtAssert("C16.will_dealt_with", len(wit.take()) == 1)
+		vrtAssert("C16.clean_sessions_discarded", b.svr.sessMgr.Count() == 0)
+	}
+	vrtReach("C16.truncated_packet_at_end")
+}
